@@ -343,7 +343,7 @@ def main(run, args):
         cases.append((f"filter_case {{| committer := {idx[meta['committer']]}; leaves := {leaves} |}} IgnoreByRef [" + "; ".join(terms) + "]", sc, meta, byi, idx))
     # ---- model
     coq_out = {}
-    if proofs_ok and cases:
+    if model_ready(proofs_ok) and cases:
         nsh = min(16, len(cases))
         shards = [list(range(len(cases)))[s::nsh] for s in range(nsh)]
 
